@@ -1,6 +1,7 @@
 package main
 
 import (
+	"strings"
 	"bytes"
 	"fmt"
 	"io"
@@ -80,6 +81,19 @@ func c14Scenario(msize uint32, dotu bool, lengths []int, part string) Scenario {
 			content := pattern(L, L)
 			path := filepath.Join(root, "file")
 			os.WriteFile(path, content, 0o644)
+			// the client may reach the file under another name: a symbolic link (whose own
+			// length is that of its text, not of the file) or a hard link
+			openAs := "file"
+			switch {
+			case strings.Contains(part, "via symlink"):
+				openAs = "ln"
+				os.Remove(filepath.Join(root, openAs))
+				os.Symlink("file", filepath.Join(root, openAs))
+			case strings.Contains(part, "via hard link"):
+				openAs = "hl"
+				os.Remove(filepath.Join(root, openAs))
+				os.Link(path, filepath.Join(root, openAs))
+			}
 			bad := withUfsClient(root, msize, dotu, func(c *go9p.Clnt, h *SrvH) string {
 				expect := func(off, cnt int) []byte {
 					if cnt > u {
@@ -94,8 +108,8 @@ func c14Scenario(msize uint32, dotu bool, lengths []int, part string) Scenario {
 					}
 					return content[off:end]
 				}
-				if part == "read" {
-					f, err := c.FOpen("file", go9p.OREAD)
+				if strings.HasPrefix(part, "read") {
+					f, err := c.FOpen(openAs, go9p.OREAD)
 					if err != nil {
 						return fmt.Sprintf("FOpen: %v", err)
 					}
@@ -144,7 +158,7 @@ func c14Scenario(msize uint32, dotu bool, lengths []int, part string) Scenario {
 						if bs == 0 {
 							continue
 						}
-						g, err := c.FOpen("file", go9p.OREAD)
+						g, err := c.FOpen(openAs, go9p.OREAD)
 						if err != nil {
 							return fmt.Sprintf("FOpen: %v", err)
 						}
@@ -188,7 +202,7 @@ func c14Scenario(msize uint32, dotu bool, lengths []int, part string) Scenario {
 						ref = append([]byte{}, disk...)
 					}
 				}
-				f, err := c.FOpen("file", go9p.ORDWR)
+				f, err := c.FOpen(openAs, go9p.ORDWR)
 				if err != nil {
 					return fmt.Sprintf("FOpen: %v", err)
 				}
@@ -229,7 +243,7 @@ func c14Scenario(msize uint32, dotu bool, lengths []int, part string) Scenario {
 					}
 					os.WriteFile(path, nil, 0o644)
 					ref = nil
-					g, err := c.FOpen("file", go9p.OWRITE)
+					g, err := c.FOpen(openAs, go9p.OWRITE)
 					if err != nil {
 						return fmt.Sprintf("FOpen: %v", err)
 					}
@@ -384,6 +398,13 @@ func c14Scenarios(tier string) []Scenario {
 			}
 		}
 	}
+	for i, via := range []string{"via symlink", "via hard link"} {
+		for _, ms := range []uint32{32, 40} {
+			u := int(ms) - 24
+			ls := []int{0, 1, 3, 4, 5, u, 2*u + 1, 3*u + 2}
+			out = append(out, c14Scenario(ms, (i+int(ms))%2 == 0, ls, "read "+via), c14Scenario(ms, (i+int(ms))%2 == 1, ls, "write "+via))
+		}
+	}
 	out = append(out, c14ManyFiles(40, false), c14ManyFiles(152, true))
 	out = append(out, c14Held(40, false), c14Held(152, true), c14Held(4120, false))
 	return out
@@ -392,7 +413,7 @@ func c14Scenarios(tier string) []Scenario {
 func init() {
 	register(&Property{ID: "C14", Level: "exploration",
 		Technique: "bounded-exhaustive enumeration of (file length, offset, count) triples through the real client and the real Ufs on a scratch tree, compared with the file's bytes on disk",
-		Rule:      "msize {32,40,152} (thorough + 33, 4120, 65560) x dialect x file lengths 0..3u+2 (every length for iounit u=8; boundary lengths 0,1,u-1,u,u+1,2u-1,2u,2u+1,3u+1 otherwise) with position-dependent contents; for small u every offset 0..len+2 x every count 0..2u+1 for Clnt.Read, File.ReadAt, File.Readn, Clnt.Write, File.Written; sequential File.Read / File.Write with every buffer size; 8 files interleaved. non-trivial = calls compared",
+		Rule:      "msize {32,40,152} (thorough + 33, 4120, 65560) x dialect x file lengths 0..3u+2 (every length for iounit u=8; boundary lengths 0,1,u-1,u,u+1,2u-1,2u,2u+1,3u+1 otherwise) with position-dependent contents; for small u every offset 0..len+2 x every count 0..2u+1 for Clnt.Read, File.ReadAt, File.Readn, Clnt.Write, File.Written; sequential File.Read / File.Write with every buffer size; 8 files interleaved; the same through a symbolic link and a hard link to the file. non-trivial = calls compared",
 		Assumptions: []string{"the host file system and package os are the reference", "client and server on the default schedule (data paths are sequential per fid)"},
 		Scenarios:   c14Scenarios, QuickS: 110, ThoroughS: 1200})
 }
